@@ -81,9 +81,35 @@ def build_scenario(K, p, actions, is_async, K2=2):
             out["A"] = dag(make_describe(True), is_async=is_async)
         except BaseException as e:  # noqa: BLE001
             out["A_err"] = repr(e)[:200]
+    # caller threads exist before the builder starts; ":afterfail" callers first make a build of their own that fails
+    prepared, starts, acts = {}, {}, {}
+
+    def caller(idx, base, afterfail):
+        if afterfail:
+            def bad_describe():
+                fa[0]()
+                raise RuntimeError("describing function fails")
+            try:
+                dag(bad_describe)
+            except RuntimeError:
+                pass
+            log("failedbuild", 3 if base == "calldag" else 4)
+        prepared[idx].set()
+        starts[idx].wait(10)
+        (calldag if base == "calldag" else callxn)()
+    for idx, a in enumerate(actions):
+        base = a.split(":")[0]
+        if base in ("calldag", "callxn"):
+            prepared[idx], starts[idx] = threading.Event(), threading.Event()
+            acts[idx] = threading.Thread(target=caller, args=(idx, base, a.endswith(":afterfail")))
+            acts[idx].start()
+    for idx in prepared:
+        prepared[idx].wait(5)
     ta = threading.Thread(target=builderA)
     ta.start()
     if not at.wait(5):
+        for idx in starts:
+            starts[idx].set()
         go.set()
         ta.join(5)
         return {"k": [K, K2, 0, 0], "ev": ev, "error": "builder never reached its pause point"}
@@ -111,15 +137,20 @@ def build_scenario(K, p, actions, is_async, K2=2):
             out["B"] = dag(describeB)
         except BaseException as e:  # noqa: BLE001
             out["B_err"] = repr(e)[:200]
-    for a in actions:
-        th = threading.Thread(target={"calldag": calldag, "callxn": callxn, "build2": build2}[a])
-        th.start()
-        if a == "build2":
+    go_act = {}
+    done_act = {}
+    for idx, a in enumerate(actions):
+        base = a.split(":")[0]
+        if base == "build2":
+            th = threading.Thread(target=build2)
+            th.start()
             th.join(0.15)       # must still be waiting for the build lock
             threads.append(th)
-        else:
-            th.join(5)
-            log(a, 3 if a == "calldag" else 4, out=results.get(a, "hang"))
+            continue
+        prepared[idx].wait(5)
+        starts[idx].set()
+        acts[idx].join(5)
+        log(base, 3 if base == "calldag" else 4, out=results.get(base, "hang"))
     go.set()
     ta.join(5)
     for th in threads:
@@ -165,7 +196,8 @@ def build_scenario(K, p, actions, is_async, K2=2):
 
 def run_build(tier, seed):
     scen = []
-    acts = [["calldag"], ["callxn"], ["build2"], ["calldag", "callxn"], ["build2", "calldag"], ["callxn", "build2", "calldag"]]
+    acts = [["calldag"], ["callxn"], ["build2"], ["calldag", "callxn"], ["build2", "calldag"], ["callxn", "build2", "calldag"],
+            ["calldag:afterfail"], ["callxn:afterfail"], ["callxn:afterfail", "build2", "calldag:afterfail"]]
     for K in (1, 2, 3):
         for p in range(0, K + 1):
             for a in acts:
@@ -236,7 +268,7 @@ def conc_program(P, argsets, mode, seed):
     pr.PRE_HOOK = pre
     rows = []
     try:
-        d, flat = pr.build(P, lambda k: {"resource": res, "priority": rng.choice([0, 1, 3])}, is_async=(mode == "gather"), mc=rng.randint(2, 4))
+        d, flat = pr.build(P, lambda k: {"resource": res, "priority": rng.choice([0, 1, 3]), "is_sequential": rng.random() < 0.25}, is_async=(mode == "gather"), mc=rng.randint(2, 4))
     except BaseException as e:  # noqa: BLE001
         pr.PRE_HOOK = None
         if "already occupied" in str(e):
